@@ -342,6 +342,7 @@ pub enum BoardValidationError {
     InvalidCastleRights,
     InvalidEnpassant,
     TooManyPieces,
+    OpponentInCheck,
 }
 
 #[derive(Debug, Clone, Copy, PartialEq, Eq)]
@@ -399,6 +400,31 @@ impl Board {
 
         self.validate_en_passant()?;
         self.validate_castle_rights()?;
+        self.validate_opponent_not_in_check()?;
+
+        Ok(())
+    }
+
+    /// The side that is not to move must not be in check: its king could be
+    /// captured, which the rest of the crate assumes never happens.
+    fn validate_opponent_not_in_check(&self) -> Result<(), BoardValidationError> {
+        let king_pos = self.king_sq(!self.turn);
+        let my_bb = self.raw[self.turn];
+        let pieces = self.raw.all();
+
+        let queen_bb = self.raw[Piece::Queen];
+        let bishops = (self.raw[Piece::Bishop] | queen_bb) & my_bb;
+        let rooks = (self.raw[Piece::Rook] | queen_bb) & my_bb;
+
+        let attackers = (chess_lookup::bishop_moves(king_pos, pieces) & bishops)
+            | (chess_lookup::rook_moves(king_pos, pieces) & rooks)
+            | (chess_lookup::knight_moves(king_pos) & self.raw[Piece::Knight] & my_bb)
+            | (chess_lookup::king_moves(king_pos) & self.raw[Piece::King] & my_bb)
+            | (chess_lookup::pawn_attacks_moves(king_pos, !self.turn) & self.raw[Piece::Pawn] & my_bb);
+
+        if attackers.any() {
+            return Err(BoardValidationError::OpponentInCheck);
+        }
 
         Ok(())
     }
